@@ -1,13 +1,23 @@
 #!/bin/sh
-# run_seeded.sh [name ...] : apply each seeded change to /repo, run its property's quick check, undo it.
+# run_seeded.sh [name ...] : apply each seeded change to /repo, run its property's quick check, undo it,
+# and record what caught it in seeded/<name>/detected.json
 cd /verif
 names="$@"
 [ -z "$names" ] && names=$(ls seeded)
 for n in $names; do
   prop=$(python3 -c "import json;print(json.load(open('seeded/$n/meta.json'))['property'])")
   git -C /repo apply /verif/seeded/$n/patch.diff || { echo "$n: patch does not apply"; continue; }
-  out=$(./check $prop --tier quick 2>&1); rc=$?
+  out=$(PEDAL_EDU_PEDAL_VERIF=1 ./check $prop --tier quick 2>&1); rc=$?
   git -C /repo checkout -- .
   echo "== $n ($prop) exit=$rc"
   echo "$out" | grep -E "VIOLATION|UNDECIDED|ENGINE|failed obligation" | head -8
+  echo "$out" | python3 -c "
+import sys, json, re
+text = sys.stdin.read()
+obl = re.findall(r'failed obligation: (\S+)', text)
+viol = re.findall(r'^VIOLATION .*$', text, re.M)
+json.dump({'seed': '$n', 'property': '$prop', 'check_exit': $rc, 'failed_obligations': sorted(set(obl)),
+           'violation_lines': len(viol), 'no_failing_input_found': sum(1 for v in viol if v.endswith('no-failing-input-found'))},
+          open('seeded/$n/detected.json', 'w'), indent=1)
+"
 done
